@@ -14,6 +14,7 @@ import Yae.Driver.Sql
 import Yae.Driver.Debug
 import Yae.Driver.ValRel
 import Yae.Model.Facade
+import Yae.Driver.Engine
 namespace Yae.Driver
 open Yae SExp
 
@@ -107,7 +108,7 @@ def handle (req : SExp) : SExp :=
       | (.error (.env .mismatch), _) => .list [.atom "err", .atom "env-mismatch"]
       | (.error (.env .mixed), _) => .list [.atom "err", .atom "env-mixed"]
     | _, _, _, _, _, _, _ => .atom "bad-request"
-  | _ => (handleNum req).getD (.atom "bad-request")
+  | _ => ((handleEngine req).orElse fun _ => handleNum req).getD (.atom "bad-request")
 
 partial def loop (hin hout : IO.FS.Stream) : IO Unit := do
   let line ← hin.getLine
